@@ -91,6 +91,7 @@ def parseRow (ws : List String) : Option (Nat × OptInfo × Flags) :=
 structure Ctx where
   cfg : Cfg
   dirs : List Bytes := []
+  errfn : Nat := 0        -- which of the harness' two error functions is installed (EF): diagnostics go to that one
 deriving Inhabited
 
 structure World where
@@ -260,7 +261,10 @@ def step (w : World) (ws : List String) : World × List String :=
   let withCtx (c : String) (f : Nat → Ctx → World × List String) : World × List String :=
     let ci := c.toNat!
     match getCtx w ci with
-    | some x => f ci x
+    | some x =>
+      let r := f ci x
+      -- every diagnostic of an operation on this context is delivered to the error function installed on it now
+      if x.errfn == 1 then (r.1, r.2.map (fun l => if l.startsWith "G " then "G2 " ++ (l.drop 2).toString else l)) else r
     | none => (w, ["R nocontext"])
   match ws with
   | ["S"] => ({ w with rows := [] }, [])
@@ -301,6 +305,7 @@ def step (w : World) (ws : List String) : World × List String :=
     (setCtx (setCtx w c.toNat! (some { cfg := cfg })) c2.toNat! (some { cfg := cfg }), ["R 0"])
   | ["SP", c, d] => withCtx c fun ci x =>
       (setCtx w ci (some { x with dirs := tildeExpand (mkPEnv w []) (bytesOfHex d) :: x.dirs }), ["R 0"])
+  | ["EF", c, k] => withCtx c fun ci x => (setCtx w ci (some { x with errfn := k.toNat! }), ["R 0"])
   | ["PB", c, t] => withCtx c fun ci x => emitParse w ci x (parseBuf orc (mkPEnv w x.dirs) x.cfg (bytesOfHex t) w.k)
   -- model-only parse: what a parse the harness' own callback starts (nested in a running parse, which the model
   -- does not run there) must leave in its context - the same as the parse on its own
@@ -395,6 +400,11 @@ def step (w : World) (ws : List String) : World × List String :=
          | none => (w, ["R -1"]))
   | ["D", c] => withCtx c fun _ x => (w, dumpCfg 0 x.cfg ++ ["."])
   | ["PR", c] => withCtx c fun _ x => (w, ["B " ++ hexOfBytes (cfgPrint x.cfg)])
+  | ["PI", c, ind] => withCtx c fun _ x => (w, ["B " ++ hexOfBytes (printCfg none ind.toNat! x.cfg)])
+  | ["POI", c, p, ind] => withCtx c fun _ x =>
+      (match (getoptPath x.cfg (bytesOfHex p)).ref.bind x.cfg.getOpt with
+       | some o => (w, ["B " ++ hexOfBytes (printOpt none ind.toNat! o)])
+       | none => (w, ["B -"]))
   | ["PP", a, b] => withCtx a fun _ xa => withCtx b fun cb xb =>
       emitParse w cb xb (parseBuf orc (mkPEnv w xb.dirs) xb.cfg (cfgPrint xa.cfg) w.k)
   | ["PO", c, p] => withCtx c fun _ x =>
